@@ -803,13 +803,15 @@ def _ite_chain(i, vals):
     return r
 
 
-def cm_final_sum_hook(M):
+def cm_final_sum_hook(M, positive=True):
     """ghost steps at the final p_models.sum(): unfold the (concrete-length) prefix sum, and show that the smallest draw is counted for
     some model, so that the normaliser is positive.  Every step is a cut (proved from the library axioms in force, then used)."""
     def h(vc, rec):
         ps, arr = rec['ps'], rec['arr']
         for j in range(M):
             vc.cut('unfold the sum of the %d unnormalised weights at %d' % (M, j), ps(j + 1) == ps(j) + arr.at(j))
+        if not positive:
+            return
         p = vc.libcalls['np.argsort'][0]
         vc.cut('the first sorted index is a valid position', z3.Implies(p.n >= 1, z3.And(0 <= p.pi(0), p.pi(0) < p.n)))
         for i in range(M):
@@ -841,7 +843,7 @@ class CompareModels(Contract):
         return cm_pre(s.x, positive=not self.guarded)
 
     def hooks(self, s):
-        return {} if self.guarded else {('np.sum', self.M): cm_final_sum_hook(self.M)}
+        return {('np.sum', self.M): cm_final_sum_hook(self.M, positive=not self.guarded)}
 
     def ensures(self, s, result):
         return cm_posts(cur(), s.x, s.sp, result, 0, 0, guarded=self.guarded)
@@ -911,6 +913,97 @@ CONTRACTS = [InputVariables(1), InputVariables(3), GetFinite(1), GetFinite(2), P
              Adjust1(), Adjust(2), AdjustPosterior(1, 'linear'), AdjustPosterior(2, 'instance'),
              LemmaSumExt(), LemmaSignCancels(),
              CompareModels(2, False), CompareModels(2, True), CompareModels(3, False), CompareModels(3, True), CompareModels(3, True, guarded=True)]
-TRUSTED_BASE = []
-ASSUMPTIONS = []
-NOT_PROVED = []
+TRUSTED_BASE = ['sklearn.linear_model.LinearRegression (assumed library, recording stub): fit(X, y) returns the object itself and sets coef_ to the '
+                'least-squares slope of y on X with an intercept, one entry per column (sanity-tested against numpy.linalg.lstsq each run, '
+                'including coef_(-X, y) = -coef_(X, y))',
+                'numpy: stack of 1-D arrays along axis 1, isfinite elementwise (uninterpreted finiteness predicate), boolean-mask row selection = '
+                'increasing enumeration of the True entries, sum of a boolean array = their number, dot = per-row sum of products, argsort = a '
+                'permutation that sorts ascending (tie order unspecified), concatenate, basic slicing (pyvc.npspec / local specs; sanity-tested)',
+                "python: all() is the conjunction of its elements' truth values; list.append / dict insertion order",
+                'Lean-certified pigeonhole on initial segments (lemmas/L1.lean), used as explicit instances in the swap lemma',
+                'pyvc engine: proxies, path forking, inlining of real callees, spec tables']
+ASSUMPTIONS = ['A-REAL: floats are mathematical reals; non-finite values are values on which the uninterpreted predicate `finite` is false (no arithmetic facts about them are used)',
+               'A-INT: integers are mathematical',
+               'A-LOG: warnings.warn has no effect on program state',
+               'scalar summaries and parameters (1-D outputs), observed summaries of shape (1,) as ELFI produces for one observed data set',
+               'fit is called on a fresh adjustment object (regression_models empty): adjust_posterior with the string specification always does; '
+               're-fitting one RegressionAdjustment instance appends new models behind the old ones while adjust() reads the first ones (observed natively, reported, outside the quantifier of the statement)',
+               'compare_models: each Sample satisfies its class invariant len(discrepancies) == n_samples; n_sim >= 1; the python list of models has concrete length 2 or 3, '
+               'lists of summary / parameter names have concrete lengths 1-3 (array lengths, values, sizes, n_sim and weights are symbolic)',
+               'compare_models sums to one only if sum_j p_j != 0: proved (with 0 <= probability <= 1) for non-empty samples and positive prior weights, and as an implication for arbitrary weights']
+NOT_PROVED = ['is unaffected by an invertible affine re-expression of the summaries']
+# Paper argument for the clause above (bounded stand-in checks it numerically): OLS with intercept on regressors D (k x m, full column rank after
+# centring) gives fitted deviations D_c b = H_c y with H_c the orthogonal projector on the column space of the centred D_c.  Re-expressing the
+# summaries s -> sA + c (A invertible) maps D -> DA (the shift c cancels in simulated - observed), D_c -> D_c A, whose column space, hence H_c, is the
+# same; the slope becomes A^{-1} b and (DA)(A^{-1} b) = D b row by row (the intercept absorbs nothing because X.b is evaluated on the UNcentred D and
+# DA A^{-1} b = D b exactly).  The finite-row filter is unchanged because a non-finite entry of a row makes the whole re-expressed row non-finite.
+# Everything rests on "coef_ is the least-squares slope", which is the assumed contract on sklearn - not a property of ELFI's code.
+
+
+def sanity():
+    import numpy as np
+    out = []
+    try:
+        from sklearn.linear_model import LinearRegression
+        rng = np.random.default_rng(7)
+        X = rng.normal(size=(12, 3))
+        y = X @ np.array([1.5, -2.0, 0.3]) + 0.7 + rng.normal(size=12) * 0.1
+        mdl = LinearRegression()
+        ret = mdl.fit(X, y)
+        ref = np.linalg.lstsq(np.column_stack([np.ones(12), X]), y, rcond=None)[0][1:]
+        out.append(('sklearn LinearRegression.fit returns self', ret is mdl))
+        out.append(('sklearn coef_ = least-squares slope with intercept (numpy.linalg.lstsq)', bool(mdl.coef_.shape == (3,) and np.allclose(mdl.coef_, ref, atol=1e-10))))
+        out.append(('sklearn coef_ flips with the sign of the regressors', bool(np.allclose(LinearRegression().fit(-X, y).coef_, -mdl.coef_, atol=1e-10))))
+    except Exception as e:
+        out.append(('sklearn LinearRegression importable and fits: %s' % e, False))
+    a, b = np.array([1.0, 2.0, 3.0]), np.array([4.0, 5.0, 6.0])
+    st = np.stack([a, b], axis=1)
+    out.append(('np.stack axis=1: result[r, c] = arrays[c][r]', bool(st.shape == (3, 2) and st[2, 0] == 3.0 and st[1, 1] == 5.0)))
+    out.append(('broadcast (n, m) - (1, m) subtracts row 0', bool(((st - np.stack([np.array([1.0]), np.array([2.0])], axis=1)) == np.array([[0., 2.], [1., 3.], [2., 4.]])).all())))
+    out.append(('np.isfinite is False for inf, -inf, nan', bool((np.isfinite(np.array([np.inf, -np.inf, np.nan, 1.0])) == np.array([False, False, False, True])).all())))
+    msk = np.array([True, False, True, True])
+    out.append(('boolean mask selects the True rows in increasing order; sum of a mask counts them',
+                bool((np.arange(8).reshape(4, 2)[msk, :] == np.array([[0, 1], [4, 5], [6, 7]])).all() and msk.sum() == 3)))
+    d = np.array([3.0, 1.0, 2.0, 1.0])
+    idx = np.argsort(d)
+    out.append(('argsort is a permutation that sorts ascending', bool(sorted(idx.tolist()) == [0, 1, 2, 3] and (np.diff(d[idx]) >= 0).all())))
+    out.append(('X.dot(b) is the per-row sum of products', bool(np.allclose(np.arange(6.0).reshape(3, 2).dot(np.array([2.0, -1.0])), [-1.0, 1.0, 3.0]))))
+    out.append(('python all() over a numpy bool array / a list of bools', all(np.array([True, True])) is True and not all([True, np.False_])))
+    return out
+
+
+def bounded(tier, seed):
+    from bounded import c17 as b
+    return b.run(tier, seed)
+
+
+_replay_cache = {}
+
+
+def replay_refuted(cname, rf):
+    """a refuted obligation: first try the finitised counter-model as a native input (compare_models), then search the bounded grid of the
+    half of the property the obligation belongs to for a failing input of the executable statement on the real code"""
+    from bounded import c17 as b
+    half = 'compare' if ('compare_models' in cname or 'lemma_swap' in cname) else 'adjust'
+    w = rf.get('witness') or {}
+    if half == 'compare' and w.get('discrepancies') and all(len(d) >= 1 for d in w['discrepancies']):
+        inp = dict(kind='compare', discrepancies=w['discrepancies'], n_sim=w['n_sim'], priors=w.get('priors'), perm=None)
+        try:
+            what = b.check_compare(inp)
+        except Exception as e:
+            what = None
+        if what:
+            return dict(found=True, input=inp, observed=what)
+    if half not in _replay_cache:
+        r = (b.run_compare if half == 'compare' else b.run_adjust)('thorough', 0, first_failure_only=True)
+        if r['failures']:
+            f = r['failures'][0]
+            _replay_cache[half] = dict(found=True, input=f['input'], observed=f['what'])
+        else:
+            _replay_cache[half] = dict(found=False, searched=r['bound'], cases=r['cases'])
+    return _replay_cache[half]
+
+
+def replay_input(inp):
+    from bounded import c17 as b
+    return b.replay_input(inp)
